@@ -11,6 +11,7 @@ import os
 from .. import drive
 from ..indep import mcbor
 from . import common
+from ..mon import faults
 
 ID = "C10"
 RULE = ("plane: for EVERY erase-block size eb in 1..512 EVERY first-slot payload length in [0, 2*eb+2) followed by a "
@@ -250,6 +251,7 @@ def file_case(rec, n):
         tmp.append(p)
         return p
 
+    @faults.guarded()
     def run(sub, out, **kw):
         try:
             if route == "cmd":
